@@ -19,6 +19,7 @@ import LinVerif.Lemmas.C08Live
 import LinVerif.Lemmas.C08Sched
 import LinVerif.Lemmas.C08Tok
 import LinVerif.Lemmas.C08Plan
+import LinVerif.Lemmas.C08Wal
 import LinVerif.Generated.C08
 
 namespace LinVerif.Props.C08
@@ -872,6 +873,52 @@ example : (Tick.run true [.append, .consume, .ack, .test]).verdict = true ∧
 
 /-! ## 5. ties to the regenerated facts (replica/*.go, app/storage/rpc/replica.go, pkg/queue/*.go) -/
 
+/-! ### Round 13: one Partition object per log directory (`writeAheadLog.GetOrCreatePartition`, side model `WalOpen`)
+
+The log model of this file has ONE set of append / consume / acknowledge cursors per leader log. On the code that is
+the Partition object `GetOrCreatePartition` hands to every write stream. For EVERY number of write streams and EVERY
+schedule of their atomic steps (enter, finish the open, write, drain), with the WAL mutex held from the lookup to the
+store (the tree's shape, `Tie.wal_open_steps`): the log directory is opened at most once, at most one Partition object
+exists, every stream that returned holds the stored one, a stream waits only while another one is inside the open (and
+is released by it: after `go` nobody is blocked), and the follower never holds more than the leader accepted. -/
+theorem wal_one_partition_per_log (n : Nat) (ss : List WalOpen.Step) :
+    (WalOpen.run true n ss).opens ≤ 1 ∧ (WalOpen.run true n ss).parts ≤ 1 ∧
+    (∀ i : Nat, (WalOpen.run true n ss).pcs[i]? = some WalOpen.Pc.done →
+      (WalOpen.run true n ss).cached = true ∧ (WalOpen.run true n ss).parts = 1 ∧ (WalOpen.run true n ss).opens = 1) ∧
+    (∀ i : Nat, (WalOpen.run true n ss).pcs[i]? = some WalOpen.Pc.blocked →
+      (WalOpen.run true n ss).inOpen = 1 ∧ (WalOpen.run true n ss).cached = false) ∧
+    (WalOpen.run true n ss).fol ≤ (WalOpen.run true n ss).app := by
+  have h := Lemmas.C08Wal.inv_run n ss
+  have hop : (WalOpen.run true n ss).opens ≤ 1 ∧ (WalOpen.run true n ss).parts ≤ 1 := by
+    cases hc : (WalOpen.run true n ss).cached with
+    | false => have := h.fresh hc; have := h.le1; omega
+    | true => have := h.stored hc; omega
+  refine ⟨hop.1, hop.2, ?_, ?_, h.fol⟩
+  · intro i hi
+    have hc := h.done i hi
+    have := h.stored hc
+    exact ⟨hc, this.1, this.2.1⟩
+  · intro i hi
+    have h1 := h.blocked i hi
+    refine ⟨h1, ?_⟩
+    cases hc : (WalOpen.run true n ss).cached with
+    | false => rfl
+    | true => have := h.stored hc; omega
+
+/-- After a drain the follower holds exactly as many messages as the leader accepted — on every schedule. -/
+theorem wal_drain_catches_up (n : Nat) (ss : List WalOpen.Step) :
+    (WalOpen.run true n (ss ++ [.drain])).fol = (WalOpen.run true n (ss ++ [.drain])).app := by
+  have hp := (wal_one_partition_per_log n ss).2.1
+  have : WalOpen.run true n (ss ++ [.drain]) = WalOpen.step true (WalOpen.run true n ss) .drain := by
+    simp [WalOpen.run, List.foldl_append]
+  rw [this]
+  simp [WalOpen.step, hp]
+
+/-- Non-vacuity: two streams open the same new log at the same moment (the second waits for the mutex), both write. -/
+example : (WalOpen.run true 3 [.call 0, .call 1, .go 0, .write 0, .write 1, .drain]) =
+    { pcs := [.done, .done, .idle], inOpen := 0, cached := true, opens := 1, parts := 1, app := 2, fol := 2 } := by rfl
+example : (WalOpen.run true 3 [.call 0, .call 1]).pcs = [.held, .blocked, .idle] := by decide
+
 namespace Tie
 open LinVerif.Generated
 
@@ -1196,6 +1243,12 @@ the else-branch — leaves the state the interpretation of that tree leaves. -/
 theorem replica_plan_eq (cfg : Cfg) (hm : cfg.mfail = C08.mismatchSetsFailure) (s : St) (idx : Int) (m : Msg) (f : Fault) :
     runSend m (C08.replicaPlan idx) s none f = some (replicaSend cfg s idx m f).1 :=
   replicaSend_eq_plan cfg (by rw [hm]; rfl) s idx m f
+
+
+/-- `writeAheadLog.GetOrCreatePartition`: ONE critical section — lock, deferred unlock, lookup, the open (family, queue
+files, partition, replica loop), store. This is what makes `WalOpen.step true` the model of the tree (driver C08Wal). -/
+theorem wal_open_steps : C08.walOpenSteps =
+    ["lock", "defer-unlock", "lookup", "open-family", "open-queue", "new-partition", "start-replica", "store"] := by decide
 
 end Tie
 
@@ -1635,6 +1688,14 @@ theorem cached_stub_dead_after_offline (k : Nat) :
       exact ih
   rw [h]
   decide
+
+
+/-- The shape with two critical sections (lookup; store) and no re-check: two streams entering together each open the
+log directory — two Partition objects, two sets of cursors over the same files (what `wal_one_partition_per_log`
+excludes for the tree's shape). -/
+theorem wal_split_lock_opens_twice :
+    (WalOpen.run false 2 [.call 0, .call 1, .go 0, .go 1]).parts = 2 ∧
+    (WalOpen.run false 2 [.call 0, .call 1, .go 0, .go 1]).opens = 2 := by decide
 
 end Neg
 
